@@ -122,7 +122,10 @@ def _case(draw, knob):
         final = "return %s" % draw(st.sampled_from(("5", "'s'", "True", "2.5")))
     if knob == "final_return_undocumented":
         final = final or "return tmp"
-    return {"route": route, "ir": ir, "body": body, "final": final, "ret_doc": knob != "final_return_undocumented",
+    docstyle = "full"
+    if knob is None and route in ("function", "method", "call") and draw(st.integers(0, 5)) == 0:
+        docstyle = draw(st.sampled_from(("blank", "none")))
+    return {"route": route, "ir": ir, "body": body, "final": final, "ret_doc": knob != "final_return_undocumented", "docstyle": docstyle,
             "first": draw(st.sampled_from(("self", "cls"))) if route == "method" else None,
             "positions": draw(st.lists(st.integers(0, 6), min_size=len(body), max_size=len(body)))}
 
@@ -133,7 +136,7 @@ def strategy(mode, knob=None):
 
 def valid(case):
     try:
-        if not (isinstance(case, dict) and set(case) == {"route", "ir", "body", "final", "ret_doc", "first", "positions"}):
+        if not (isinstance(case, dict) and set(case) - {"docstyle"} == {"route", "ir", "body", "final", "ret_doc", "first", "positions"}):
             return False
         if case["route"] not in ("function", "method", "argparse", "call") or not domain.valid_ir(case["ir"]):
             return False
@@ -225,6 +228,10 @@ def function_source(case, name=kinds.FUNC_NAME):
     if case["final"] and case["ret_doc"]:
         doc += [":returns: the result", ""]
     lines = ["def %s(%s):" % (name, ", ".join(args)), '    """'] + ["    " + l if l else "" for l in doc] + ['    """']
+    if case.get("docstyle") == "blank":  # a docstring that says nothing (what emit.function writes for an undocumented one)
+        lines = [lines[0], '    """ """']
+    elif case.get("docstyle") == "none":
+        lines = [lines[0]]
     lines += ["    " + l for l in case["body"]]
     if case["final"]:
         lines.append("    " + case["final"])
@@ -236,7 +243,7 @@ def run_case(case):
     from doctrans.source_transformer import to_code
 
     route = case["route"]
-    tags = {"route=" + route}
+    tags = {"route=" + route, "docstring=" + case.get("docstyle", "full")}
     body_src = "\n".join(case["body"])
     if any(l.startswith(("for ", "if ", "with ", "try:", "def ")) for l in case["body"]):
         tags.add("compound")
